@@ -1,4 +1,33 @@
 """C03 configuration."""
+import collections
+
+
+def _extra(ctx):
+    """coverage details: how many histories, steps, tainted values, sharing observations, exhaustive part"""
+    cases, results = ctx["cases"], ctx["results"]
+    hist = [c for c in cases.values() if c["kind"] == "hist"]
+    share = collections.Counter(results.get(c["id"], "missing").split(":")[0] for c in cases.values() if c["kind"] == "histshare")
+    steps = sum(len(c["payload"]) - 1 for c in hist)
+    ops = collections.Counter()
+    for c in hist:
+        for st in c["payload"][1:]:
+            src = st.split(" ## ", 1)[-1]
+            for key in (" with ", " without ", " where ", " >> ", " ++ ", " | ", " <&> ", "let [", "//seq.trim_prefix", "//seq.trim_suffix",
+                        "//seq.sub", "//seq.split", "//seq.join", "//seq.repeat", "//seq.concat", ")\\v"):
+                if key in src:
+                    ops[key.strip()] += 1
+    exh = sum(1 for c in hist if c["stratum"].startswith("exhaustive"))
+    cov = dict(histories=len(hist), steps=steps, api_steps=sum(1 for c in hist for st in c["payload"][1:] if not st.startswith("- ## ")),
+               histories_with_tainted_values=sum(1 for c in hist if c["payload"][0] != "strict"),
+               operator_histogram=dict(ops.most_common()),
+               live_values_sharing_a_backing_array_with_spare_capacity=dict(share),
+               exhaustive_histories=exh)
+    if exh:
+        cov["exhaustive"] = ("all %d histories of length 1..4 over {with at end, without at end, with at front} x {string, bytes, array}, "
+                             "every choice of operand among the values so far" % exh)
+    return dict(coverage=cov)
+
+
 PROP = dict(
     quick_n=2000, thorough_n=60000,
     trusted_base=["heap model of Go slices (Arrai/C03/Heap.lean): `append` writes in place iff len+n <= cap, otherwise moves to a fresh "
@@ -24,6 +53,7 @@ PROP = dict(
                "by decide. Model tied to the Go code by differential histories (step-wise through the rel API/scoped evaluation and as one "
                "nested-let program) on every run; thorough adds all histories of length <= 4 over {with at end, without at end, with at front}.",
     env={"HARNESS_TIMEOUT_MS": "120000"},
+    extra=_extra,
     design_ref="DESIGN.md section 6, C03",
     watch=["rel.String.with", "rel.String.With", "rel.String.Without", "rel.String.Where", "rel.String.Map",
            "rel.Bytes.with", "rel.Bytes.With", "rel.Bytes.Without", "rel.Bytes.Where", "rel.Bytes.Map",
